@@ -1,4 +1,4 @@
 #!/bin/sh
 # TLC with a deep Java stack (recursive operators over long bit sequences) on every thread,
 # including the main thread that evaluates ASSUMEs.
-exec java -Xss1g ${TLC_JAVA_OPTS:-} -XX:+UseParallelGC -cp /opt/veriftools/tla/tla2tools.jar:/opt/veriftools/tla/CommunityModules-deps.jar tlc2.TLC "$@"
+exec java -Xss1g ${TLC_JAVA_OPTS:-} -XX:+UseSerialGC -cp /opt/veriftools/tla/tla2tools.jar:/opt/veriftools/tla/CommunityModules-deps.jar tlc2.TLC "$@"
